@@ -17,7 +17,7 @@ impl TempFile {
 }
 impl Drop for TempFile { fn drop(&mut self) { let _ = std::fs::remove_file(&self.0); } }
 
-const PASSWORDS: [&str; 6] = ["", "pw", "pw ", " pw", "PW", "p\u{308}w"];
+const PASSWORDS: [&str; 9] = ["", "\n", "pw", "pw ", "pw\n", "pw\r\n", " pw", "PW", "p\u{308}w"];
 
 #[derive(Savefile, Clone, Debug, PartialEq)]
 pub struct Doc {
@@ -27,7 +27,7 @@ pub struct Doc {
     pub flag: Option<bool>,
 }
 fn doc<S: Src>(s: &mut S) -> Doc {
-    let n = [0usize, 1, 3, 70_000][s.below(4)]; // 70_000 u16 = 140 kB: more than one 100 000 byte crypto chunk
+    let n = [0usize, 3, 70_000][s.below(3)]; // 70_000 u16 = 140 kB: more than one 100 000 byte crypto chunk
     Doc { id: s.u32(), name: ["", "n", "näme"][s.below(3)].to_string(), items: (0..n).map(|i| (i * 7) as u16).collect(), flag: [None, Some(true)][s.below(2)] }
 }
 
